@@ -178,7 +178,9 @@ class EccHarness(Harness):
                     if 2 not in (nflip, nflip2) and ded:
                         self.report("ecc.single_reported_uncorrectable", "single flips only (masks %x / %x) but ded_errors = %d" % (f, f2, ded), nflip=1)
                 elif nflip == 0:
-                    if sec or ded: self.report("ecc.false_alarm", "clean word reported sec=%d ded=%d" % (sec, ded), nflip=0)
+                    # after a partial write some ECC word of the location was never (completely) written through the port: what an unwritten
+                    # word decodes to is not specified (an all-zero word need not be a valid stored codeword), so only full writes are judged here
+                    if (sec or ded) and not partial: self.report("ecc.false_alarm", "clean word reported sec=%d ded=%d" % (sec, ded), nflip=0)
                 elif nflip == 1:
                     if ded: self.report("ecc.single_reported_uncorrectable", "single flip %x counted as uncorrectable" % f, nflip=1)
                     if not sec:
